@@ -24,7 +24,9 @@ TraceB == ndJsonDeserialize(IOEnv.TRACE_B)
 Bump(r) == TLCSet(r, TLCGet(r) + 1)
 Init == l = 1 /\ TLCSet(1, 0) /\ TLCSet(2, 0) /\ TLCSet(3, 0) /\ TLCSet(4, 0)
 
-ResultKeys == {"r", "s", "u", "v", "v2", "i", "c", "msb", "lsb", "p", "p2", "e"}
+\* keys that hold result values (NaN / zero-sign normalisation applies to them); harnesses whose other keys are strings or
+\* auxiliary observations say RKEYS = "r": everything but the result proper must then be bit-identical
+ResultKeys == IF "RKEYS" \in DOMAIN IOEnv /\ IOEnv.RKEYS = "r" THEN {"r"} ELSE {"r", "s", "u", "v", "v2", "i", "c", "msb", "lsb", "p", "p2", "e"}
 MinMaxFamily == {"min", "max", "fmin", "fmax", "clamp", "fclamp", "clampraw", "min3", "max3", "fmin3", "fmax3", "min4", "max4", "fmin4", "fmax4",
                  "compMin", "compMax", "texClamp"}
 NaNFamily == {"fmin", "fmax", "fclamp", "fmin3", "fmax3", "fmin4", "fmax4"}
